@@ -126,6 +126,20 @@ def tie_theorem_names(targets, tier):
     return [f"C38_{t.name}_{tag}_meets_spec" for t in targets if t.kind == "stub" for tag, _, _ in r_alphabets(t, tier)]
 
 
-LEVEL_TEXT = "in progress"
-LEVEL_NOTE = "in progress"
-TECHNIQUE = "in progress"
+LEVEL_TEXT = (
+    "Machine-checked proof (Rocq) about the corrected behaviour, plus a confirmed defect of the code as found. (1) C38_restart_is_fresh: from ANY state of the "
+    "HeaderPacketReceiver bookkeeping model (every dispatcher state, a link command half sent, LBAD/LRTY/keepalive pending, arbitrary counters) one cycle with "
+    "enable low or usb_reset high yields the fresh state (one LGOOD owed carrying expected-1, n LCRDs owed from index A, empty queue, not ignoring, nothing pending, "
+    "generator idle); parametric in n, widths. (2) C38_reentry_meets_spec: every continuation (all later inputs, further disables/resets) is accepted by the specification "
+    "sp_mon restarted at that sequence number (n = 2^pw, pw, sw <= 4). (3) C38_first_command_is_advertisement: under the specification nothing but LGOOD(expected-1) can complete "
+    "before the advertisement. (4) C38_crash_point_sweep (LUNA's n = 4, sw = 3): for all 7 dispatcher x 3 generator states x 8 sequence numbers, disable and USB reset, the quiet "
+    "re-entry run emits exactly LGOOD(e-1) [LGOOD 7 after reset], LCRD A..D. (5) Ties: regenerated netlist of the bookkeeping (shrunk configuration) |= sp_mon and == model on all "
+    "traces over explicit alphabets in which enable and usb_reset are free in every cycle. On the UNCHANGED tree these ties fail with a replayed counterexample "
+    "(findings/C38-restart-missed-outside-dispatch.json): the reset-on-disable block is evaluated only in DISPATCH_COMMAND and on a one-cycle edge; the check passes with findings/C38-restart-missed-outside-dispatch.diff.")
+LEVEL_NOTE = (
+    "The delivered model is the corrected behaviour (patched gateware): level-sensitive restart in every state, generator reset, header acceptance gated by the link being up, "
+    "advertised number recomputed from the expected sequence number. ./check C38 exits 1 (VIOLATION, confirmed on the simulator) on the tree as found and 0 with the patch. "
+    "R ties at buffer_count 1 (quick) / 1, 2 (thorough), stubbed raw receiver; n = 4 real receiver by correspondence + runtime oracle with random disables / resets. "
+    "Liveness of the advertisement is shown for quiet re-entry runs at LUNA's configuration (computation), not in general. The raw receiver's parser is not reset on re-entry (stated).")
+TECHNIQUE = ("Rocq proof: state-universal restart lemma + the C37 simulation restarted; exhaustive crash-point computation; certified product-reachability (specification monitor and lock-step) "
+             "against the regenerated netlist with enable / usb_reset free; counterexample search replayed on Amaranth's simulator")
